@@ -5,5 +5,5 @@ cd "$(dirname "$0")/harness"
 export GOFLAGS=-mod=mod GOPROXY=off GOSUMDB=off GOTOOLCHAIN=local
 [ -f go.sum ] || cp /repo/go.sum go.sum
 mkdir -p ../.build
-go test -c -tags verif -o ../.build/setup.test ./props
+go test -c -trimpath -tags verif -o ../.build/setup.test ./props
 rm -f ../.build/setup.test
